@@ -261,7 +261,7 @@ func checkC09(cfg *core.Config) int {
 
 	return rep.Finish(core.Evidence{
 		Evaluations: rep.Counter("key-lists-compared") + rep.Counter("metamorphic-texts-compared"),
-		Rule:        "tagprogs: struct-only programs sweeping the json-tag alphabet (18 spellings incl. options, empty name, '-', '-,', other keys before/after, gomacro ignore/opaque) x 11 field kinds x unexported / embedded / nested; ground truth = ordered key list of json.Marshal on a fully non-empty value in the compiled package (no generated code), minus gomacro:\"ignore\" fields; compared with Exported()/JSONName() of the analysis and with the keys extracted from the TypeScript interface, the Dart fromJson/toJson and the SQL struct validator. Metamorphic pairs (program, program + added/retyped ignored fields of types declared outside the analysed file) must give byte-identical TypeScript, Dart and validator texts. Distinct = distinct (struct, key list).",
+		Rule:        "tagprogs: struct-only programs sweeping the json-tag alphabet (21 spellings incl. options, empty name, '-', '-,', other keys before/after, gomacro ignore/opaque) x 11 field kinds x unexported / embedded / nested; ground truth = ordered key list of json.Marshal on a fully non-empty value in the compiled package (no generated code), minus gomacro:\"ignore\" fields; compared with Exported()/JSONName() of the analysis and with the keys extracted from the TypeScript interface, the Dart fromJson/toJson and the SQL struct validator. Metamorphic pairs (program, program + added/retyped ignored fields of types declared outside the analysed file) must give byte-identical TypeScript, Dart and validator texts. Distinct = distinct (struct, key list).",
 		Assumptions: []string{"tagged embedded structs and conflicting promoted names are outside the quantifier", "keys are extracted with harness/tsmodel, harness/dartmodel and a pattern on the validator template (key IN (...), data->'k')"},
 		Extra:       map[string]any{"programs": len(progs), "features": pr.pl.FeatureSummary()},
 	})
